@@ -180,9 +180,12 @@ class Builder(ABC):
             )
 
             # Allow user to specify starting mass if desired, but otherwise let
-            # the trajectory builder calculate it.
+            # the trajectory builder calculate it. The calculation is done in
+            # both cases because it also sets the trip fuel mass that the
+            # simulation starts from.
+            calculated_starting_mass = self.calc_starting_mass()
             if self.starting_mass is None:
-                self.starting_mass = self.calc_starting_mass()
+                self.starting_mass = calculated_starting_mass
             assert self.starting_mass is not None
 
             # Do the simulation...
